@@ -153,8 +153,9 @@ PROPS = {
     'C17': {'jobsets': ['legacy'], 'phases': ['', 'encode', 'decode'], 'translator_validation': 2, 'also_labels': r'^(C\d\d |M-)'},
     'C15': {'jobsets': ['depth'], 'phases': ['decode'], 'translator_validation': 4},
     'C12': {'jobsets': ['codec', 'parse'], 'phases': ['encode', 'decode'], 'job_filter': r'codec/(Sp|Sc|Tw|Id|Li_|Se_)|parse/', 'also_labels': r'^(C01|C02|C04)'},
-    'C13': {'jobsets': ['invalid', 'parse'], 'phases': [''], 'translator_validation': 4},
-    'C07': {'jobsets': ['hist', 'dec2'], 'phases': ['pred', 'decode'], 'also_labels': r'^(C03|C09|C05|C06|C01)', 'job_filter': r'^(hist|dec2|decmsg)/'},
+    'C13': {'jobsets': ['invalid', 'parse'], 'phases': ['', 'sibling'], 'translator_validation': 4, 'also_labels': r'^C07 a valid type sharing'},
+    'C07': {'jobsets': ['hist', 'dec2', 'invalid'], 'phases': ['pred', 'decode', 'sibling'], 'also_labels': r'^(C03|C09|C05|C06|C01)',
+            'job_filter': r'^(hist|dec2|decmsg)/|^invalid/def(%s)$' % '|'.join('%02d' % i for i in range(_NCASES - 3, _NCASES))},
     'C06': {'jobsets': ['unit', 'dec2', 'decmsg', 'codec'], 'phases': [], 'job_filter': r'unit/(span|decoder)|^decmsg/|^dec2/|^codec/', 'also_labels': r'^M-(scan|align)'},
     'C01': {'jobsets': ['codec'], 'phases': ['decode']},
     'C02': {'jobsets': ['codec'], 'phases': []},
@@ -204,17 +205,17 @@ MANIFEST_TEXT.update({
     'C05': {'level': 'Every byte of the input is a solver variable: for every byte string of length 0..N and each destination type, on every path DecodeObject must not panic / '
                      'fault / read outside the input (Go panics and the memory-model bounds monitor are violations), must succeed exactly when the independent reference '
                      'decoder finds a well-formed message, with work (executed SSA instructions) and requested memory bounded linearly in N.',
-            'ref': 'DESIGN.md s7 C05', 'note': _CODEC_NOTE + ' N <= 8 quick, N <= 12 thorough, 6 destination types; longer inputs and the unbounded-length header arithmetic (H_hdr) are outside the claim. The dependency gopkg/thrift skipper is executed from source.',
+            'ref': 'DESIGN.md s7 C05', 'note': _CODEC_NOTE + ' N <= 8 quick, N <= 12 thorough, 7 destination types (scalars, lists, maps, nested structs, unknown-field holder, enums, containers of one-byte elements); structured mutation: every truncation / one symbolic byte / one symbolic 32-bit length or count field in well-formed messages of 7 writer types; longer inputs and the unbounded-length header arithmetic (H_hdr) are outside the claim. The dependency gopkg/thrift skipper is executed from source.',
             'technique': 'SSA-level symbolic execution over fully symbolic input bytes + SMT (z3)'},
     'C06': {'level': '(1) Inductive step of the real bump allocator span.Malloc from an arbitrary valid pre-state (frontier p, request n up to 4 MiB as solver variables, align 1/2/4/8): '
                      'alignment, containment, disjointness from earlier allocations and the invariant are decided by z3 for all values; the same for tDecoder.Malloc dispatch. '
                      '(2) In every decode harness an ownership walk over the decoded object checks, per pointer/slice/string: aligned, owned by this decode, typed for GC when it holds '
                      'pointers, inside its allocation, disjoint from all other pieces and from the input. (3) Histories: decode, overwrite the input, decode again with the same pooled '
-                     'decoder; first object unchanged, all memory disjoint; uninitialised allocator memory is modelled as fresh symbolic bytes.',
+                     'decoder, optionally with a FAILING decode (truncated message) in between; first object unchanged, all memory disjoint; uninitialised allocator memory is modelled as fresh symbolic bytes.',
             'ref': 'DESIGN.md s7 C06', 'note': _CODEC_NOTE + ' The Go allocator/GC is not executed: GC-safety is argued from scan-class + ownership facts. Block base addresses are 16-byte aligned in the model (real mallocgc guarantees 8 for these sizes; align <= 8).',
             'technique': 'SMT-decided inductive lemma over real SSA + symbolic execution with a byte-addressed memory model'},
     'C09': {'level': 'Reader types with required fields at ids on both sides of presence-set word boundaries (0,1,63,64,65,127 / 128,255,256,32767,32768,65534), nested in list/map/struct, '
-                     'receive messages in which any subset is omitted or has the wrong wire type: failure with INVALID_DATA naming the first missing field exactly when the reference finds one missing; '
+                     'receive messages in which any subset is omitted or has the wrong wire type, also with one field id sent twice in every struct (occurrences are not a count of distinct fields): failure with INVALID_DATA naming the first missing field exactly when the reference finds one missing; '
                      'also all byte strings <= N for a type with required id 300. Encode side: required fields are written for all values (byte equality with the reference).',
             'ref': 'DESIGN.md s7 C09', 'note': _CODEC_NOTE + ' Presence-set lemma (unit/bitset-lemma): word index case-split over all 1024 words x 4 relative positions, bit positions and word contents symbolic: set/unset/test are exact and never leave the array. Dirty presence bits: havocked pool (all 1024 words symbolic) and predecessor decodes.',
             'technique': 'SSA-level symbolic execution + SMT (z3), differential against reference decoder/encoder'},
@@ -233,11 +234,11 @@ MANIFEST_TEXT.update({
 MANIFEST_TEXT.update({
     'C07': {'level': 'The decode under test (structured message, reference decoder as stateless oracle) is preceded by a predecessor chosen by the solver-explored menu: pools HAVOCKED to arbitrary contents '
                      '(presence bitset: 1024 symbolic words; unknown-field index: arbitrary size and stale entries; bump allocator at frontier classes), a successful decode of another type sharing pooled objects and type nodes, '
-                     'a decode failing at every truncation point, size+encode by value, a full decode of the same type; plus decode/overwrite/decode histories and neighbour types registered before the type under test.',
+                     'a decode failing at every truncation point, size+encode by value, a full decode of the same type; plus decode/overwrite/(failing decode)/decode histories, neighbour types registered before the type under test, and failed registrations of types that share a valid nested struct (other flavour: by value vs by pointer) with a valid type used before and after.',
             'ref': 'DESIGN.md s7 C07', 'note': _CODEC_NOTE + ' Histories longer than two calls are covered only through the havocked-pool (one inductive step) form; sync.Pool is modelled as LIFO reuse.',
             'technique': 'SSA-level symbolic execution + SMT (z3) from havocked pool states (one inductive step) and enumerated predecessors'},
-    'C13': {'level': 'For 58 definitions of the enumerated invalid classes (unsupported Go kinds, missing/contradicting/broken annotations, invalid keys and pointer forms, bad ids/requiredness/options, invalid two levels down, '
-                     'mutually recursive types with an invalid member) and 9 non-struct arguments, the real registration and entry-point code is executed by the engine in three orders of first use mixed with a valid type: '
+    'C13': {'level': ('For %d definitions' % _NCASES) + ' of the enumerated invalid classes (unsupported Go kinds, missing/contradicting/broken annotations, invalid keys and pointer forms, bad ids/requiredness/options, invalid two levels down, '
+                     'mutually recursive types with an invalid member, invalid types sharing a valid nested struct with a valid sibling) and 9 non-struct arguments, the real registration and entry-point code is executed by the engine in three orders of first use mixed with a valid type: '
                      'EncodeObject/DecodeObject must return an error with n == 0 and untouched buffer, EncodedSize must end in an ordinary Go panic (runtime faults are distinguished), the same on every call, everything reaching '
                      'the invalid definition rejected too, and the valid sibling must still round-trip a symbolic value.',
             'ref': 'DESIGN.md s7 C13', 'note': _CODEC_NOTE + ' Registration outcomes depend on no symbolic input: for them the engine acts as an exact interpreter with fault detection (exhaustive over the enumerated classes, not solver-decided). Symbolic part: ParseType on annotation texts with symbolic bytes (see C12) must reject everything outside the allowed token sequences and never panic.',
